@@ -166,6 +166,55 @@ func ruleP03LineWrites(p *Prog, r *Report) {
 		v := strip(ls.st.Val)
 		switch x := v.(type) {
 		case *ssa.BinOp:
+			// prefix + new token + suffix, the two taken from a submatch of the line's own old
+			// text over ^(prefix)X(suffix)$ — ReplaceAllString("${1}"+token+"${2}") spelled out
+			if x.Op == token.ADD {
+				var leaves []ssa.Value
+				concatLeaves(x, &leaves, 0)
+				group := func(v ssa.Value) (ssa.CallInstruction, int64) {
+					u, isU := strip(v).(*ssa.UnOp)
+					if !isU || u.Op != token.MUL {
+						return nil, -1
+					}
+					ia, isIA := u.X.(*ssa.IndexAddr)
+					if !isIA {
+						return nil, -1
+					}
+					k, isK := constInt(ia.Index)
+					c, ci := callOf(strip(ia.X))
+					if !isK || c == nil || ci != 0 || staticCallee(c) == nil || staticCallee(c).String() != "(*regexp.Regexp).FindStringSubmatch" {
+						return nil, -1
+					}
+					return c, k
+				}
+				if len(leaves) >= 3 {
+					c1, k1 := group(leaves[0])
+					c2, k2 := group(leaves[len(leaves)-1])
+					if c1 != nil && c1 == c2 {
+						okOld := oldTextOf(c1.Common().Args[1], elem)
+						pat, okPat := p.regexOfValue(c1.Common().Args[0])
+						shapeOK, why := false, "pattern is not a constant"
+						if okPat {
+							shapeOK, why = tokenPatternShape(pat)
+						}
+						mid := true
+						for _, l := range leaves[1 : len(leaves)-1] {
+							if gc, _ := group(l); gc != nil {
+								mid = false
+							}
+						}
+						// the slice is only indexed where the match succeeded
+						matched := false
+						for _, gd := range guardsOf(ls.st.Block()) {
+							if xv, isNil, isG := nilFact(gd); isG && !isNil && sameValue(xv, c1.Value()) {
+								matched = true
+							}
+						}
+						r.check(okOld && shapeOK && k1 == 1 && k2 == 2 && mid && matched, rule, key, p.instrPos(ls.st), "line text = prefix + new token + suffix of its own old text ("+pat+")", "an existing line is not rewritten as group 1 + token + group 2 of a match of its own old text over ^(prefix)X(suffix)$: "+why)
+						continue
+					}
+				}
+			}
 			ok := x.Op == token.ADD && oldTextOf(x.X, elem)
 			r.check(ok, rule, key, p.instrPos(ls.st), "line text = its old text + appended text", "an existing line is overwritten with a string that does not start with its own old text")
 			continue
